@@ -51,6 +51,12 @@ def observe_reused(buf_codes, funcs, keep_padding, n):
     if t is None or _REUSED["n"] > 5000:
         t = _REUSED["t"] = Tokenizer()
         _REUSED["n"] = 0
+        # used once with the settings it was constructed with, BEFORE any reconfiguration: whatever it derives from its settings on
+        # first use (a longest-name bound, a compiled pattern) must not outlive the settings
+        try:
+            t.tokenize("ab + sgn(1.5)")
+        except BaseException:  # noqa
+            pass
     _REUSED["n"] += 1
     t.exclude_padding = not keep_padding
     table = {"".join(map(chr, f)): (SgnExpression if f == SGN else AbsExpression) for f in funcs}
